@@ -9,7 +9,6 @@ package main
 
 import (
 	"regexp"
-	"sort"
 	"strconv"
 	"strings"
 
@@ -347,8 +346,8 @@ func showAction(r *route.Route) string {
 	return "none"
 }
 
-// showRoute: header matchers in EMITTED order (the header sort is observable); query-parameter
-// matchers sorted by name (they come out of a Go map range and are never sorted by the code).
+// showRoute: header and query-parameter matchers in EMITTED order (both are produced in sorted key
+// order since /repo 2dac7a8, so the order is observable and part of the structural tie).
 func showRoute(r *route.Route) string {
 	m := r.Match
 	path := "?"
@@ -374,7 +373,6 @@ func showRoute(r *route.Route) string {
 	for i, q := range m.QueryParameters {
 		qs[i] = showQuery(q)
 	}
-	sort.Strings(qs)
 	dm := ""
 	if len(m.DynamicMetadata) > 0 {
 		dm = "|dm=" + strconv.Itoa(len(m.DynamicMetadata))
